@@ -6,6 +6,17 @@ PRIMS = {"u8": 8, "u16": 16, "u32": 32, "u64": 64, "u128": 128, "usize": 64,
          "i8": 8, "i16": 16, "i32": 32, "i64": 64, "i128": 128, "isize": 64}
 
 
+# The WIDE instantiations (harness: `for_wide!` in bin c09): 8192 bits in every digit type, and the widest
+# digit counts whose bit width is not a multiple of the wider digit sizes (partial last packed digit).
+# They are paired with each other, with every primitive and with the SMALL bnum types (`for_small!`).
+WIDE = {8: [1024, 1021], 16: [512], 32: [256], 64: [128, 127]}
+SMALL = ["i8x3", "u8x17", "i16x5", "u16x1", "i32x3", "u32x6", "i64x1", "u64x3"]
+
+
+def wide_types():
+    return [f"{s}{w}x{n}" for w, ns in WIDE.items() for n in ns for s in "ui"]
+
+
 def bn_types():
     out = []
     for w, ns in GRID.items():
@@ -55,6 +66,65 @@ def src_value(rng, sname, dname):
     return t, v
 
 
+def wide_value(rng, sname, dname, j):
+    """j-th source pattern of a pair that involves a wide type.  General classes: a random pattern with the
+    sign forced (every digit position carries information, so an indexing slip anywhere shows); one set (or
+    one clear) bit at a position drawn from all over the width and around digit / target boundaries; a
+    negative number of small or boundary magnitude (sign extension through every digit); the classes of
+    `src_value`."""
+    sb, ssigned, sw = type_bits(sname)
+    db, dsigned, dw = type_bits(dname)
+    c = j % 4
+    if c == 0:
+        v = rng.randrange(1 << sb)
+        top = 1 << (sb - 1)
+        if ssigned and rng.random() < 0.7:
+            return "w-random-neg", v | top
+        return "w-random", v
+    if c == 1:
+        ws = [x for x in (sw, dw, 64) if x]
+        q = rng.randrange(5)
+        if q == 0:
+            k = rng.randrange(sb)
+        elif q == 1:
+            k = rng.choice(ws) * rng.randrange(0, sb // 8) + rng.choice([-1, 0, 1])
+        elif q == 2:
+            k = min(sb, db) + rng.choice([-65, -64, -9, -8, -2, -1, 0, 1, 7, 8, 63, 64])
+        elif q == 3:
+            k = sb - 1 - rng.randrange(0, 130)
+        else:
+            k = rng.randrange(0, 130)
+        k = max(0, min(sb - 1, k))
+        if rng.random() < 0.5:
+            return "w-bit-set", 1 << k
+        return "w-bit-clear", pat(~(1 << k), sb)
+    if c == 2 and ssigned:
+        q = rng.randrange(3)
+        if q == 0:
+            z = -rng.randrange(1, 1 << rng.choice([1, 7, 8, 9, 63, 64, 65, 128]))
+        elif q == 1:
+            k = min(sb, db)
+            z = -(1 << (k - 1)) + rng.randrange(-2, 3)
+        else:
+            z = -(1 << rng.randrange(sb - 1)) - rng.randrange(0, 3)
+        return "w-neg", pat(z, sb)
+    return src_value(rng, sname, dname)
+
+
+def char_points(rng):
+    """code points of every UTF-8 length class and of bit lengths around the digit sizes 8 / 16 and the
+    maximum 21 (never a surrogate)"""
+    out = [0, 0x41, 0x7f, 0x80, 0xff, 0x100, 0x7ff, 0x800, 0xd7ff, 0xe000, 0xffff, 0x10000, 0x1ffff, 0x20000,
+           0xfffff, 0x100000, 0x10ffff]
+    for bl in (7, 8, 9, 11, 12, 15, 16, 17, 20, 21):
+        while True:
+            c = rng.randrange(1 << (bl - 1), 1 << bl)
+            if c <= 0x10ffff and not 0xd800 <= c <= 0xdfff:
+                break
+        out.append(c)
+    return out
+
+
 def gen(rng, tier):
     bn = [t[0] for t in bn_types()]
     prims = list(PRIMS)
@@ -63,10 +133,10 @@ def gen(rng, tier):
     reps = 12 if tier == "thorough" else 10
     pairs = set()
     # every ordered (source, target) pair in both tiers: a change may be keyed to one particular combination
+    # (primitive -> primitive included: `primitive_cast_impl!` of src/cast/mod.rs)
     for s in alltypes:
         for d in alltypes:
-            if not (s in PRIMS and d in PRIMS):
-                pairs.add((s, d))
+            pairs.add((s, d))
     pairs = sorted(pairs)
     for s, d in pairs:
         for _ in range(reps):
@@ -81,17 +151,47 @@ def gen(rng, tier):
                 yield f"cast {s} {d} {hx(pat(z, sb))}", "pair-boundary"
                 if ssigned:
                     yield f"cast {s} {d} {hx(pat(-z, sb))}", "pair-boundary"
-    for d in bn:
-        yield f"cast bool {d} 0", "bool"
-        yield f"cast bool {d} 1", "bool"
-        for c in (0, 0x41, 0x7f, 0x80, 0xff, 0x100, 0xd7ff, 0xe000, 0xffff, 0x10000, 0x10ffff, rng.randrange(0xd800)):
-            yield f"cast char {d} {hx(c)}", "char"
-    for name, w, n, signed in bn_types():
-        for _ in range(reps):
+    # the blanket `As::as_` (harness: operands / results of BInt through `as_bits`): every ordered pair of the
+    # small bnum types and the primitives
+    asty = SMALL + prims
+    for s_ in asty:
+        for d in asty:
+            for _ in range(3 if tier == "thorough" else 2):
+                t, v = src_value(rng, s_, d)
+                yield f"as {s_} {d} {hx(v)}", "as/" + t
+            sb, ssigned, _ = type_bits(s_)
+            db, _, _ = type_bits(d)
+            k = min(sb, db)
+            z = (1 << (k - 1)) + rng.randrange(-1, 2)
+            yield f"as {s_} {d} {hx(pat(-z if ssigned else z, sb))}", "as/pair-boundary"
+    # wide instantiations (up to 8192 bits): every ordered pair wide x (wide | small | primitive)
+    wide = wide_types()
+    partners = wide + SMALL + prims
+    wreps = 8 if tier == "thorough" else 3
+    for s_ in partners:
+        for d in partners:
+            if s_ in wide or d in wide:
+                for j in range(wreps):
+                    t, v = wide_value(rng, s_, d, j)
+                    yield f"cast {s_} {d} {hx(v)}", t
+    for d in bn + wide:
+        for op in ("cast", "as") if d in SMALL else ("cast",):
+            yield f"{op} bool {d} 0", "bool"
+            yield f"{op} bool {d} 1", "bool"
+            for c in char_points(rng):
+                yield f"{op} char {d} {hx(c)}", "char"
+    for name, w, n, signed in bn_types() + [(t,) + type_bits(t)[2:] + (int(t.split("x")[1]), t[0] == "i") for t in wide]:
+        for _ in range(reps if name not in wide else 4):
             t, v = value(rng, w, n)
             if signed:
                 yield f"cast_unsigned {name} {hx(v)}", t
                 yield f"to_bits {name} {hx(v)}", t
                 yield f"from_bits {name} {hx(v)}", t
+                # the same three observed without from_bits / to_bits on the harness side
+                yield f"cast_unsigned_obs {name} {hx(v)}", t
+                yield f"to_bits_obs {name} {hx(v)}", t
+                yield f"from_bits_obs {name} {hx(v)}", t
             else:
                 yield f"cast_signed {name} {hx(v)}", t
+                yield f"cast_signed_obs {name} {hx(v)}", t
+            yield f"reinterp_vs_cast {name} {hx(v)}", t
